@@ -60,7 +60,7 @@ class _Fail(Exception):
     pass
 
 
-def run_prog_impl(prog, prior_seed):
+def run_prog_impl(prog, prior_seed, runs=None):
     """execute on the real generator; returns canonical (g, out, failed) in the symbolic vocabulary"""
     import numpy as np
     from pyxel.util import set_random_seed
@@ -105,13 +105,27 @@ def run_prog_impl(prog, prior_seed):
         raise ValueError(p)
 
     failed = False
-    try:
-        ex(prog)
-    except _Fail:
-        failed = True
+    if runs is None:
+        try:
+            ex(prog)
+        except _Fail:
+            failed = True
+        outs = None
+    else:
+        # several runs one after the other (an observation's sequential path): stop at the first run that fails
+        outs = []
+        for r in runs:
+            del out[:]
+            try:
+                ex(r)
+            except _Fail:
+                failed = True
+            outs.append([v.hex() for v in out])
+            if failed:
+                break
     key = full_state_key()
     g = [None, states.index(key)] if key in states else ["?", -1]
-    return {"g": g, "out_vals": [v.hex() for v in out], "failed": failed, "lookup": lookup}
+    return {"g": g, "out_vals": [v.hex() for v in out], "outs": outs, "failed": failed, "lookup": lookup}
 
 
 def match_out(model_out, impl):
@@ -421,7 +435,7 @@ def body(ck: common.Check):
     import extract
 
     extract.generate("C04")
-    ck.obligations(["PyxelModel.Props.C04", "PyxelModel.Props.C04Threads"], ["PyxelModel.Drive.C04"])
+    ck.obligations(["PyxelModel.Props.C04", "PyxelModel.Props.C04Threads", "PyxelModel.Props.C04Modes"], ["PyxelModel.Drive.C04"])
     rng = ck.rng
     quick = ck.tier == "quick"
 
@@ -462,6 +476,45 @@ def body(ck: common.Check):
                          {"case": {"stream": "discipline", "prog": p, "prior": prior}, "expected": want, "got": got})
         if not model_ok:
             ck.disagreement("discipline", {"prog": p, "prior": prior}, {"g": impl["g"], "failed": impl["failed"], "n_out": len(impl["out_vals"])}, ans)
+
+    # ---- runs: sequences of whole runs (what an observation / repeated exposures do to the generator), against execRuns
+    seqs = []
+    for _ in range(60 if quick else 800):
+        n = rng.choice([1, 2, 3, 4, 6])
+        runs = []
+        for _k in range(n):
+            body_ = gen_prog(rng, depth=2)
+            runs.append(["seeded", rng.choice(SEEDS), body_] if rng.random() < 0.8 else body_)
+        if rng.random() < 0.3:  # the same run repeated (same configuration run twice in one process)
+            runs.append(runs[rng.randrange(len(runs))])
+        seqs.append(runs)
+    seqs.append([["seeded", 7, ["seq", "draw", "draw"]], ["seeded", 7, ["seq", "draw", "draw"]]])
+    seqs.append([["seeded", 1, "draw"], ["seeded", 2, ["seq", "draw", "fail"]], ["seeded", 1, "draw"]])
+    ranswers = LeanDriver("C04").batch([{"runs": r} for r in seqs])
+    for runs, ans in zip(seqs, ranswers):
+        if "bad" in ans:
+            raise common.InfraError(f"driver: {ans}")
+        prior = rng.randrange(1000)
+        impl = run_prog_impl(None, prior, runs=runs)
+        ck.case({"runs": runs, "prior": prior}, nontrivial=len(runs) >= 2 and ans["guarded"], stream="runs")
+        ck.count("runs:all-seeded" if ans["guarded"] else "runs:some-unseeded")
+        ck.count("runs:n=" + str(len(runs)))
+        if impl["failed"]:
+            ck.count("runs:stopped-by-failure")
+        per_run_ok = len(ans["outs"]) == len(impl["outs"]) and all(
+            match_out([tuple(x) for x in mo], {"out_vals": io, "lookup": impl["lookup"]}) for mo, io in zip(ans["outs"], impl["outs"]))
+        if ans["guarded"]:
+            # the statement: every seeded run gives its own seed's stream whatever ran before it, and the caller's
+            # generator is where it was
+            if impl["g"] != [None, 0]:
+                ck.violation("C04:runs-do-not-restore", "process-wide generator not restored after a sequence of seeded runs",
+                             {"case": {"stream": "runs", "runs": runs, "prior": prior}, "impl_state": impl["g"]})
+            if impl["failed"] == ans["failed"] and not per_run_ok:
+                ck.violation("C04:run-depends-on-earlier-runs", "a seeded run in a sequence does not produce its standalone draws",
+                             {"case": {"stream": "runs", "runs": runs, "prior": prior}})
+        if not (impl["g"] == ans["g"] and impl["failed"] == ans["failed"] and per_run_ok):
+            ck.disagreement("runs", {"runs": runs, "prior": prior}, {"g": impl["g"], "failed": impl["failed"], "n_runs": len(impl["outs"])},
+                            {"g": ans["g"], "failed": ans["failed"], "n_runs": len(ans["outs"])})
 
     # ---- models with a seed parameter
     fxs = fixtures()
@@ -538,7 +591,7 @@ def body(ck: common.Check):
             ck.violation("C04:threads-overlapping-seeded-regions", f"overlapping seeded regions: wrong draws in threads {r['wrong_threads']}, restored={r['restored']}", {"case": case})
 
     ck.rule = ("discipline: random programs (draw / fail / seq / seeded s / seeded None, depth ≤ 5) on the real generator vs the symbolic model; "
-               "models: each seeded model function on a real detector, same seed from two prior states (one after unrelated draws); "
+               "runs: sequences of 1-7 whole runs (most under a seed, some repeated, some failing) on the real generator vs execRuns; models: each seeded model function on a real detector, same seed from two prior states (one after unrelated draws); "
                "modes: exposure / observation (sequential, dask threads 1-8 workers, synchronous) / calibration (1-2 islands) with a pipeline seed, and the deprecated entry points exposure_mode / observation_mode / calibration_mode, run twice; "
                "threads: 2-8 real threads in overlapping seeded regions. non-trivial = contains a seeded region and a draw")
     ck.assumptions = [
